@@ -16,7 +16,8 @@
     cube point: the vertex of the level-`lvl` ancestor's square that lies in the half (in i and in j) in which the cell
     lies — the "closest vertex" of Go's doc comment.  (A vertex neighbour need NOT touch the cell itself when the cell
     is not at that corner of its ancestor; "touches" in the property text can only mean this.)
-  Still open: completeness of `allNeighbors` for cells ON a face boundary / cube corner.
+  Completeness of `allNeighbors` for ALL cells (face boundary, cube corner): `C01_NeighborsComplete.lean`
+  (`allNeighbors_complete`), together with the length of the list and exactly when it contains duplicates.
 -/
 import S2Proofs.NbrAll
 import S2Proofs.NbrComplete
